@@ -20,9 +20,9 @@ func init() {
 		Rule: "cases: a base world (NetworkPolicy / ANP+BANP / Ingress+Route families, all workloads Deployments) re-expressed three times with every workload drawn anew from {Deployment, ReplicaSet, StatefulSet, DaemonSet, Job, CronJob, ReplicationController, bare Pod, 1-3 Pods sharing one controller ownerReference} x replicas {absent,0,1,2,3}; " +
 			"the reports must be point-wise equal after erasing the [Kind] suffix, the number of workload peers must equal the number of workloads, no peer may connect to itself; every tenth case is a name-collision world (same namespace/name under two kinds, or a bare Pod named like a generated replica) where each workload must still be its own peer; " +
 			"non-trivial = the base report has a partial or missing connection and at least one workload changed kind; distinct = world hash + chosen expressions",
-		Assumptions: []string{"a workload's identity is (namespace, name, kind); pod template labels and container ports are copied verbatim into every expression"},
-		NumCases:    func(tier string, _ int64) int { return tierN(tier, 700, 25000) },
-		Run:         runC17,
+		Assumptions:       []string{"a workload's identity is (namespace, name, kind); pod template labels and container ports are copied verbatim into every expression"},
+		NumCases:          func(tier string, _ int64) int { return tierN(tier, 700, 25000) },
+		Run:               runC17,
 		MinNonTrivial:     150,
 		MinEffectiveShare: 0.5,
 		RequiredEvents: map[string]int64{"points_compared": 30000, "kind_Deployment": 50, "kind_ReplicaSet": 50, "kind_StatefulSet": 50, "kind_DaemonSet": 50, "kind_Job": 50,
